@@ -328,6 +328,9 @@ func concatMerge(v, d string) string { return v + d }
 
 // minMerge keeps the smaller of the two strings (an empty current value counts as "no value yet")
 func minMerge(v, d string) string {
+	if len(d) > 1 && d[0] == '=' {
+		d = d[1:] // "=text": the candidate is the tail of the delta, so a result can be a sub-slice of the delta
+	}
 	if v == "" || d < v {
 		return d
 	}
